@@ -23,6 +23,9 @@ CHECKS = {
  "C19": dict(level="exploration", engine="bex", technique="exhaustive small-scope enumeration: parameter-set lengths x content patterns through every representation, unit lists x start-code framings, all 2-byte AudioSpecificConfigs, all codec pairs for SDP, and the product of H.264 SPS syntax alternatives produced by an encoder model (reference writers/readers in lib/ref)",
    text="(a) SPS/PPS(/VPS) of lengths {natural,255,256,65535} x {1,2,3,4,255,256,65535} x 5 content patterns through lal's sequence-header builders and parsers (and reference-built headers incl. enhanced-RTMP), Annex-B conversions and SDP sprop attributes, compared byte for byte and against a reference record parser / RFC SDP reader; (b) every list of <=3 NAL units x every 3/4-byte start-code mix x leading/trailing zeros through Annex-B<->AVCC; (c) all 31x16x16 two-byte ASCs (+extension bytes) through Unpack/Pack, sequence header, SDP config and ADTS; (d) SDP for every codec pair read by lal and by an RFC 4566 reader; (e) ~150k (quick ~70k) H.264 SPS NAL units from an encoder model covering 16 profiles x chroma formats x scaling lists x POC types x interlace x cropping x VUI x sizes (with real emulation-prevention bytes), and 2k H.265 SPS, with the reported dimensions compared to the spec formulas.",
    note="Trusted: lib/ref/h26x.go (bit writer, exp-Golomb, emulation prevention, SPS syntax, dimension formulas), lib/ref/sdp.go. HEVC SPS model is basic (no VUI/extensions). Dimensions are read from the parser contexts that the stat API publishes, not through a live group.", design="C19"),
+ "C01": dict(level="model_checking", engine="seqx", technique="explicit-state breadth-first search over publish/join/leave/re-publish event sequences of the real server (replay-from-root on a fresh logic.ServerManager per transition, fingerprint dedup), per-consumer contiguity monitor on bytes decoded by reference codecs; plus an exhaustive payload-length x timestamp shape sweep",
+   text="For 8 (quick) / 12 (thorough) configurations of GOP cache size, per-GOP frame cap, merge-write size and FLV recording, every event sequence up to depth 5 (quick) / 8 (thorough, time-capped) over {publish one of 8 message kinds, join RTMP/HTTP-FLV/WS-FLV, leave oldest/newest, publisher leaves/arrives} is executed on a real ServerManager with real RTMP and HTTP-FLV sessions over in-memory connections; after every event each consumer's bytes are decoded by the reference RTMP/FLV/WebSocket readers and checked: known messages only, byte-identical payload (modulo @setDataFrame), identical timestamp, no duplicate, prologue before live data, live run contiguous per publisher incarnation and reaching the newest message up to the merge-write size; the FLV record file likewise. A shape sweep covers payload lengths on both sides of 128/4096 multiples x timestamps around 0xFFFFFF, 2^31, 2^32 and non-monotonic pairs.",
+   note="Every explored trace is an implementation trace (no separate model). Subscriber write queues forced to 0 (the statement excludes back-pressure). Relay-push targets are covered by C17. Bounds: <=3 simultaneous consumers, 2 publisher incarnations, depth as stated; data independence argument for payload bytes beyond the classification prefix.", design="C01"),
 }
 NOT_YET = "check not built yet in this session (work in progress; see DESIGN.md section for the planned model-checking design)"
 
